@@ -23,7 +23,7 @@ from props.c12 import to_events
 
 LEVEL = "model_checking"
 BOUND = {0: 40, 1: 50, 2: 55, 5: 63}
-OVH = {0: 0, 1: 5, 2: 18, 5: 19}
+OVH = {0: 0, 1: 5, 2: 18, 5: 25}      # (18 is the last overhead served by the accelerated kernel; 25 needs the portable one)
 
 
 def logical_inputs(f, m, seed):
